@@ -242,6 +242,12 @@ public:
             c.nt(true);
             return Outcome::pass();
         }
+        if (!S.s && e == ETIMEDOUT) {
+            // establishment that times out is C13's subject; here it is what an overloaded machine does
+            // to the 3 s default of tcp.connect_timeout / tcp.user_timeout: not a verdict on attributes
+            c.cls("inconclusive:establishment-timed-out");
+            return Outcome::pass();
+        }
         VF_CHECK(S.s != nullptr, "C11: xcm_connect_a(%s) failed with %s for an admissible creation map (%s)", addr.c_str(), errname(e), trace.c_str());
         S.closed = false;
         S.fd = x_fd(S);
@@ -308,6 +314,7 @@ public:
                 if (A.s) { accepted = true; A.closed = false; A.fd = x_fd(A); }
             }
             int rc = x_finish(S);
+            if (rc < 0 && errno == ETIMEDOUT) { c.cls("inconclusive:establishment-timed-out"); return Outcome::pass(); }
             if (rc < 0 && errno != EAGAIN) return failf("C11: connection failed during establishment: %s", errname(errno));
             if (accepted) x_finish(A);
             ready = rc == 0 && accepted && x_finish(A) == 0;
@@ -408,6 +415,8 @@ public:
         bool srv_auth = cfg.ch(4) != 0;
         uint32_t seed = cfg.raw();
         (void)seed;
+        int acc_blk = (int)cfg.ch(3); // xcm.blocking in the accept map: 0 absent, 1 true, 2 false
+        bool want_blocking = acc_blk == 1 ? true : acc_blk == 2 ? false : srv_blocking;
         World &w = World::get();
         std::string proto = World::server_proto(tp);
         std::string addr = proto + ":127.0.0.1:0";
@@ -453,6 +462,7 @@ public:
             trace += wr.show() + " ";
         }
         if (uses_tls(tp) && acc_override_ct) { xcm_attr_map_add_bool(am, "tls.check_time", acc_ct); trace += std::string("tls.check_time=") + (acc_ct ? "true" : "false"); }
+        if (acc_blk) { xcm_attr_map_add_bool(am, "xcm.blocking", acc_blk == 1); trace += std::string(" xcm.blocking=") + (acc_blk == 1 ? "true" : "false"); c.cls(want_blocking != srv_blocking ? "accept-map-overrides-blocking-mode" : "accept-map-repeats-blocking-mode"); }
         c.log("%s server blocking=%d check_time=%d auth=%d; accept map: %s", tp_name(tp), srv_blocking, srv_check_time, srv_auth, trace.c_str());
         // make sure the connection is pending before a (possibly blocking) accept
         int lfd = sh_listen_fd(srv.tag, 0);
@@ -469,11 +479,13 @@ public:
         }
         VF_CHECK(acc.s != nullptr, "C11: xcm_accept_a with admissible attributes (%s) failed: %s", trace.c_str(), errname(e));
         acc.closed = false;
-        acc.blocking = srv_blocking;
+        acc.blocking = want_blocking;
         bool ab = call(acc, [&] { return xcm_is_blocking(acc.s); });
-        VF_CHECK(ab == srv_blocking, "C11: the server socket is %s, the accepted socket is %s", srv_blocking ? "blocking" : "non-blocking", ab ? "blocking" : "non-blocking");
+        VF_CHECK(ab == want_blocking, "C11: the server socket is %s, the accept map %s, the accepted socket is %s", srv_blocking ? "blocking" : "non-blocking",
+                 acc_blk ? (acc_blk == 1 ? "says xcm.blocking=true" : "says xcm.blocking=false") : "does not mention xcm.blocking", ab ? "blocking" : "non-blocking");
         bool vb = false;
-        VF_CHECK(call(acc, [&] { return xcm_attr_get_bool(acc.s, "xcm.blocking", &vb); }) >= 0 && vb == srv_blocking, "C11: xcm.blocking of the accepted socket reads %d, the server's is %d", vb, srv_blocking);
+        VF_CHECK(call(acc, [&] { return xcm_attr_get_bool(acc.s, "xcm.blocking", &vb); }) >= 0 && vb == want_blocking, "C11: xcm.blocking of the accepted socket reads %d, expected %d (server %d, accept map %s)", vb, want_blocking, srv_blocking,
+                 acc_blk ? (acc_blk == 1 ? "true" : "false") : "silent");
         char sv[64] = "";
         call(acc, [&] { return xcm_attr_get_str(acc.s, "xcm.service", sv, sizeof(sv)); });
         VF_CHECK(std::string(sv) == (is_bytestream(tp) ? "bytestream" : "messaging"), "C11: accepted socket's xcm.service is '%s'", sv);
@@ -484,7 +496,7 @@ public:
             VF_CHECK(ct == want, "C11: tls.check_time of the accepted socket is %d; server socket %d, accept-time override %s", ct, srv_check_time, acc_override_ct ? (acc_ct ? "true" : "false") : "none");
             VF_CHECK(call(acc, [&] { return xcm_attr_get_bool(acc.s, "tls.auth", &au); }) >= 0 && au == srv_auth, "C11: tls.auth of the accepted socket is %d, the server's %d", au, srv_auth);
         }
-        if (srv_blocking) { call(acc, [&] { return xcm_set_blocking(acc.s, false); }); acc.blocking = false; }
+        if (want_blocking) { acc.blocking = false; sh_enter(acc.tag, 0); int rc = xcm_set_blocking(acc.s, false); sh_leave(); (void)rc; }
         Ep tmp = acc;
         Outcome k = check_kernel(tmp, m, "", "accepted socket, attributes given to xcm_accept_a");
         c.nt(true);
